@@ -93,6 +93,26 @@ class TreeBuilder:
         return v[(self.labels + j) % len(v)]
 
 
+def freeze(ts):
+    """remember the derivations as they are now; the returned function puts every node attribute and token back (an oracle that
+    compares printed output with 'the derivation' must mean the derivation handed to the printer, whatever the printer did to it)"""
+    saved = []
+    for t in ts:
+        for nd in walk(t):
+            kids = list(nd.children)
+            tok = (kids[0], list(kids[0].items())) if nd.is_leaf else None
+            saved.append((nd, nd.cat, kids, nd.op_string, nd.op_symbol, nd.head_is_left, tok))
+
+    def restore():
+        for nd, cat, kids, ops, opsym, h, tok in saved:
+            nd.cat, nd.op_string, nd.op_symbol, nd.head_is_left = cat, ops, opsym, h
+            nd.children[:] = kids
+            if tok is not None:
+                tok[0].clear()
+                tok[0].update(tok[1])
+    return restore
+
+
 def walk(t):
     yield t
     if not t.is_leaf:
